@@ -152,6 +152,9 @@ func (rd *Round) Case34() gen.Case {
 	case rd.Kind == "sync" && rd.DiscoverErr != "":
 		// fail before change
 		c.Class = "sync:duplicate:" + rd.DiscoverErr
+		if k := CollisionKind(rd.RootsAbs); k != "" {
+			c.Class += "+" + k
+		}
 		if fcerr == "ok" {
 			fail("duplicate-not-rejected", "two discovered repositories collide ("+rd.DiscoverErr+") but sync -f succeeded")
 		} else if d := unchanged(); len(d) > 0 {
@@ -345,6 +348,9 @@ func DiscoverCase(t *Tool, roots []string, args []string) gen.Case {
 		}
 		c.Impl = "err " + cls
 		c.Class = "discover:err:" + cls
+		if k := CollisionKind(roots); k != "" {
+			c.Class += "+" + k
+		}
 	default:
 		var xs []string
 		for _, r := range resp.Repos {
